@@ -719,10 +719,23 @@ def check_dispatch(fx, rep, rule):
                   "skip leading newlines; '#' -> header, four spaces -> member, else class; on Err: ParseError{line = split_line(line start).0}, rest = .1")
 
 
+def check_iterator_overrides(fx, rep, rule, self_ty, what):
+    """`next` is the only place an iterator's sequence is defined: an override of a provided method (nth, fold, count, last,
+    advance_by, ...) is a second definition of the same sequence that adaptors (`skip`, `step_by`, `last`) silently use."""
+    over = sorted(b["name"] for q, b in fx.bodies.items() if b["krate"] == "proguard" and b.get("impl_trait") == "std::iter::Iterator"
+                  and b.get("impl_self_dp", "").endswith(self_ty) and b["name"] not in ("next", "size_hint"))
+    if over:
+        rep.undecidable(rule, "%s/iterator-overrides/%s" % (rule, what), loc=self_ty,
+                        construct="`impl Iterator for %s` overrides provided method(s) %s: their agreement with next() is not decided" % (what, over))
+    else:
+        rep.ok(rule, "%s/iterator-overrides/%s" % (rule, what), found="`impl Iterator for %s` defines the sequence in next() only" % what)
+
+
 def check_iterator(fx, rep, rule):
     p = A.one(rep, rule, "ProguardRecordIter::next", A.method(fx, "mapping::ProguardRecordIter", "next", trait="Iterator"))
     if not p:
         return
+    check_iterator_overrides(fx, rep, rule, "mapping::ProguardRecordIter", "ProguardRecordIter")
     use(fx)
     rec = rp("parse_proguard_record")
     sy, res = ev(fx, rep, rule, "%s/iterator" % rule, p, opaque=lambda q: q == rec)
